@@ -201,6 +201,8 @@ pub struct Arena {
     pub draws: Vec<u32>,
     pub max_decisions: usize,
     pub misaligned_pairs: usize,
+    /// terms that entered through an unchecked element decoder from an invalid-encoding token
+    pub offgroup: std::collections::HashSet<Tid>,
     /// opt-in (`dedupe`): outcomes of the comparisons decided since it was switched on; an identical comparison met again
     /// takes the same outcome instead of following the shadow values (x || !x style re-tests after a forced flip)
     pub decided: Option<HashMap<F, bool>>,
@@ -235,6 +237,7 @@ impl Arena {
             draws: vec![],
             max_decisions: 20000,
             misaligned_pairs: 0,
+            offgroup: Default::default(),
             decided: None,
             unmodelled_words: 0,
             seed: 0,
@@ -550,6 +553,15 @@ pub fn decide(f: F) -> bool {
         }
     });
     outcome
+}
+
+pub fn mark_offgroup(t: Tid) {
+    with(|a| {
+        a.offgroup.insert(t);
+    })
+}
+pub fn is_offgroup(t: Tid) -> bool {
+    with(|a| a.offgroup.contains(&t))
 }
 
 /// Switch the same-comparison-same-outcome rule on (starting with an empty memory) or off.
